@@ -240,7 +240,7 @@ def damaged_decodes(rng, runner, n, quick=True):
 # ----------------------------------------------------------------------------- tie
 
 OBSERVED = ("own.tload", "own.tmerge", "own.mnew", "own.madd", "own.mload", "own.mcopy", "own.dnew", "own.dsub", "own.dexpand", "own.dfill",
-            "own.dmerge", "own.enc", "own.gwrite", "own.gread", "own.dec", "own.extract", "own.dumpload", "own.bset", "own.bcut",
+            "own.dmerge", "own.enc", "own.gwrite", "own.gread", "own.dec", "own.dseq", "own.extract", "own.dumpload", "own.bset", "own.bcut",
             "own.bflip", "own.bget", "own.dfactors", "own.dhdr", "own.store", "own.lnew", "own.llocal")
 
 def two_pass(scn, c_out):
